@@ -240,6 +240,7 @@ def units(tier):
     U += cache_units()
     U += relax_units()
     U += bfs_units(tier)
+    U += ctor_units()
     return U
 
 
@@ -455,6 +456,73 @@ __CPROVER_assigns(g_data[@nb@], is_this_cell_considered[@nb@], g_pushed[0], g_np
         U.append(Unit(nm, "C13", [fn], enforce="relax_step", globals_=G, inputs=["in_nb", "in_cur", "g_data", "is_this_cell_considered"], runs=[Run(backend="z3", timeout=300)], replay=replay_by_native_search,
                       harness="int main(void) {\n  size_t in_nb = nondet_size(), in_cur = nondet_size(); g_npush = 0;\n  relax_step(in_nb, in_cur);\n  __CPROVER_assert(0, \"VP_REACH\");\n  return 0;\n}\n",
                       desc=f"{cls}::{fname}, relaxation step (innermost loop body): the {'coface' if up else 'face'} takes the {'larger' if up else 'smaller'} of the two values, the current cell keeps its value, the {'coface' if up else 'face'} is marked as reached and queued for the next round exactly when it was not marked before"))
+    return U
+
+def ctor_units():
+    """Construction plumbing: which set-up routine each constructor runs for the chosen input convention, and which sizes
+    (numbers of top cells per direction) reach set_up_containers when the input is given on the vertices.  The set-up
+    routines themselves are ghost stubs (their pieces are under contract elsewhere)."""
+    U = []
+    G = ("unsigned g_top_calls, g_vert_calls; bool nondet_bool(void);\n"
+         "static void setup_top(void) { g_top_calls++; }\nstatic void setup_vert(void) { g_vert_calls++; }\n")
+    con = """
+__CPROVER_requires(g_top_calls == 0 && g_vert_calls == 0)
+__CPROVER_ensures(input_top_cells ? (g_top_calls == 1 && g_vert_calls == 0) : (g_top_calls == 0 && g_vert_calls == 1))
+__CPROVER_assigns(g_top_calls, g_vert_calls)
+"""
+    harness = "int main(void) {\n  bool in_top = nondet_bool(); g_top_calls = 0; g_vert_calls = 0;\n  ctor(in_top);\n  __CPROVER_assert(0, \"VP_REACH\");\n  return 0;\n}\n"
+    disp_subs = [(r"(?:this->)?(?:setup_bitmap_based_on_top_dimensional_cells_list|construct_complex_based_on_top_dimensional_cells)\([^;]*\);", "setup_top();", 0),
+                 (r"(?:this->)?(?:setup_bitmap_based_on_vertices|construct_complex_based_on_vertices)\([^;]*\);", "setup_vert();", 0),
+                 (r"std::vector<bool> directions_in_which_periodic_b_cond_are_to_be_imposed = [^;]*;", "", 0)]
+    for nm, path, cls, sel in (
+            ("base.ctor3", B, CLS_B, rf"{CLS_B}<T>::{CLS_B}\(const std::vector<unsigned>& \w+,\s*const std::vector<T>& \w+,\s*bool input_top_cells\)"),
+            ("base.ctor4", B, CLS_B, rf"{CLS_B}<T>::{CLS_B}\(const std::vector<unsigned>& dimensions,\s*const std::vector<T>& cells,\s*const std::vector<bool>& directions,\s*bool input_top_cells\)"),
+            ("per.ctor3", PB, CLS_P, rf"{CLS_P}<T>::{CLS_P}\(\s*const std::vector<unsigned>& dimensions, const std::vector<T>& cells, bool input_top_cells\)"),
+            ("per.ctor4", PB, CLS_P, rf"{CLS_P}<T>::{CLS_P}\(\s*const std::vector<unsigned>& dimensions, const std::vector<T>& cells,\s*const std::vector<bool>& directions_in_which_periodic_b_cond_are_to_be_imposed,\s*bool input_top_cells\)")):
+        fn = Fn(path, sel, "ctor", con, sig_subs=[(r"^.*$", "void ctor(bool input_top_cells)")], subs=disp_subs,
+                canary=(r"setup_vert\(\);", "setup_top();"))
+        U.append(Unit(f"{nm}.input_convention", "C13", [fn], enforce="ctor", globals_=G, inputs=["in_top"], harness=harness, replay=replay_by_native_search,
+                      desc=f"{cls} constructor (dimensions, cells{', directions' if nm.endswith('4') else ''}, input_top_cells): values are taken as top-cell values exactly when input_top_cells is true, as vertex values otherwise"))
+    # vertex input: the numbers of top cells per direction handed to set_up_containers
+    Gv = ("#define DMAX 4\ntypedef struct { unsigned a[DMAX]; size_t n; } vp_vec_u; typedef struct { bool a[DMAX]; size_t n; } vp_vec_b;\n"
+          "vp_vec_u g_sizes; bool g_pos_inf; unsigned g_setup_calls, g_fill_calls, g_impose_calls; unsigned g_seq;\n"
+          "static void rec_set_up_containers(vp_vec_u s, bool pos_inf) { g_sizes = s; g_pos_inf = pos_inf; g_setup_calls++; if (g_seq != 0) g_seq = 99; else g_seq = 1; }\n"
+          "static void rec_fill(void) { g_fill_calls++; if (g_seq != 1) g_seq = 99; else g_seq = 2; }\n"
+          "static void rec_impose(void) { g_impose_calls++; if (g_seq != 2) g_seq = 99; else g_seq = 3; }\n"
+          "unsigned nondet_uint(void); bool nondet_bool(void); size_t nondet_size(void);\n")
+    for nm, path, cls, sel, per in (
+            ("base.setup_bitmap_based_on_vertices", B, CLS_B, rf"void {CLS_B}<T>::setup_bitmap_based_on_vertices\(const std::vector<unsigned>& sizes_in_following_directions,\s*const std::vector<T>& vertices\)", False),
+            ("per.construct_complex_based_on_vertices", PB, CLS_P, rf"void {CLS_P}<T>::construct_complex_based_on_vertices\(\s*const std::vector<unsigned>& dimensions, const std::vector<T>& vertices,\s*const std::vector<bool>& directions_in_which_periodic_b_cond_are_to_be_imposed\)", True)):
+        dims = "dimensions" if per else "sizes_in_following_directions"
+        exp = f"{dims}.a[k] - (periodic.a[k] ? 0u : 1u)" if per else f"{dims}.a[k] - 1u"
+        Gx = Gv + (f"static bool sizes_ok(vp_vec_u {dims}, vp_vec_b periodic) {{ bool ok = g_sizes.n == {dims}.n; for (unsigned k = 0; k < DMAX; k++) if (k < {dims}.n) ok = ok && g_sizes.a[k] == {exp}; return ok; }}\n")
+        conv = f"""
+__CPROVER_requires({dims}.n >= 1 && {dims}.n <= DMAX && periodic.n == {dims}.n && g_setup_calls == 0 && g_fill_calls == 0 && g_impose_calls == 0 && g_seq == 0)
+__CPROVER_requires({dims}.a[0] >= 2 && {dims}.a[1] >= 2 && {dims}.a[2] >= 2 && {dims}.a[3] >= 2 && {dims}.a[0] <= 1073741824u && {dims}.a[1] <= 1073741824u && {dims}.a[2] <= 1073741824u && {dims}.a[3] <= 1073741824u)
+__CPROVER_ensures(g_thrown != 0 || (g_setup_calls == 1 && !g_pos_inf && sizes_ok({dims}, periodic)))
+__CPROVER_ensures(g_thrown != 0 || (g_fill_calls == 1 && g_impose_calls == 1 && g_seq == 3))
+__CPROVER_assigns(g_sizes, g_pos_inf, g_setup_calls, g_fill_calls, g_impose_calls, g_seq, g_thrown)
+"""
+        subs = [(r"this->directions_in_which_periodic_b_cond_are_to_be_imposed = directions_in_which_periodic_b_cond_are_to_be_imposed;", "", 0),
+                (r"std::vector<unsigned> (\w+);", r"vp_vec_u \1; \1.n = 0;"),
+                (r"std::transform\s*\((\w+)\.begin\(\), \1\.end\(\), std::back_inserter\((\w+)\),\s*\[\]\(int (\w+)\)\{ return ([^;]*);\}\);",
+                 r"for (size_t vp_t = 0; vp_t < \1.n; vp_t++) { int \3 = (int)\1.a[vp_t]; \2.a[\2.n] = (unsigned)(\4); \2.n++; }", 0),
+                (r"std::transform\s*\((\w+)\.begin\(\), \1\.end\(\), (\w+)\.begin\(\),\s*std::back_inserter\((\w+)\), \[\]\(unsigned (\w+), bool (\w+)\)\{ return ([^;]*);\}\);",
+                 r"for (size_t vp_t = 0; vp_t < \1.n; vp_t++) { unsigned \4 = \1.a[vp_t]; bool \5 = periodic.a[vp_t]; \3.a[\3.n] = (unsigned)(\6); \3.n++; }", 0),
+                (r"(?:this->)?set_up_containers\((\w+), (\w+)\);", r"rec_set_up_containers(\1, \2);"),
+                (r"std::size_t number_of_vertices = std::accumulate\([^;]*\);", "size_t number_of_vertices = g_nv;", 0),
+                (r"vertices\.size\(\)", "g_nv_given", 0), (r"std::cerr\s*<<[^;]*;", "", 0),
+                (r"for_each_vertex\(\[this, &vertices, index=\(std::size_t\)0\] \(auto cell\) mutable \{ get_cell_data\(cell\) = vertices\[index\+\+\]; \}\);", "rec_fill();", 0),
+                (r"std::size_t i = 0;\s*for \(auto it = this->vertices_iterator_begin\(\); it != this->vertices_iterator_end\(\); \+\+it\) \{\s*this->get_cell_data\(\*it\) = vertices\[i\];\s*\+\+i;\s*\}", "rec_fill();", 0),
+                (r"(?:this->)?impose_lower_star_filtration_from_vertices\(\);", "rec_impose();")]
+        sigp = f"void build_from_vertices(vp_vec_u {dims}, vp_vec_b periodic)"
+        fn = Fn(path, sel, "build_from_vertices", conv, sig_subs=[(r"^.*$", sigp)], subs=subs, throw_ret="",
+                canary=(r"rec_set_up_containers\((\w+), false\)", r"rec_set_up_containers(\1, true)"))
+        U.append(Unit(f"{nm}", "C13", [fn], enforce="build_from_vertices", globals_=Gx + "int g_thrown; size_t g_nv, g_nv_given;\n", unwind=6, route="B",
+                      bound="dimension <= 4 (the per-direction loop is unwound); side lengths and the periodic mask symbolic", inputs=["in_d", "in_p"], replay=replay_by_native_search,
+                      harness="int main(void) {\n  vp_vec_u in_d; vp_vec_b in_p; in_d.n = nondet_size(); in_p.n = in_d.n;\n  for (int k = 0; k < DMAX; k++) { in_d.a[k] = nondet_uint(); in_p.a[k] = nondet_bool(); }\n"
+                              "  g_setup_calls = 0; g_fill_calls = 0; g_impose_calls = 0; g_seq = 0; g_thrown = 0; g_nv = nondet_size(); g_nv_given = nondet_size();\n  build_from_vertices(in_d, in_p);\n  __CPROVER_assert(0, \"VP_REACH\");\n  return 0;\n}\n",
+                      desc=f"{cls}, construction from vertex values: set_up_containers receives, per direction, the number of vertices minus one ({'the number of vertices itself in a periodic direction' if per else 'always'}), with -infinity as the starting value; then the vertex values are written and the lower-star filtration from vertices is imposed, in that order"))
     return U
 
 def bfs_units(tier):
